@@ -219,6 +219,26 @@ func (ex *Exec) harnessAPI(fr *frame, name string, args []Value) (Value, bool) {
 	case "vMetricL":
 		nm := ex.concStr(args[0], "vMetricL name")
 		return ex.metricLabelled(nm, args[1]), true
+	case "vClockStart":
+		ex.clock = tt.BV(64, 0)
+		return nil, true
+	case "vNowNs":
+		if ex.clock == nil {
+			return tt.BV(64, 0), true
+		}
+		return ex.clock, true
+	case "vSleepUntilNs":
+		t := args[0].(*Term)
+		if ex.clock != nil {
+			// time never goes backwards
+			ex.clock = tt.Ite(tt.Cmp(OSlt, ex.clock, t), t, ex.clock)
+		}
+		return nil, true
+	case "vCtxDeadlineNs":
+		if dl := ex.ctxDeadline(args[0]); dl != nil {
+			return Tuple{dl, tt.Bool(true)}, true
+		}
+		return Tuple{tt.BV(64, 0), tt.Bool(false)}, true
 	case "vSetRetryBound":
 		ex.retryBound = ex.concInt(args[0], "retry bound")
 		return nil, true
@@ -282,6 +302,7 @@ func (ex *Exec) hmacTerm(alg string, key, msg []*Term) []*Term {
 	} else {
 		app = tt.UF(fmt.Sprintf("hmac_%s_m%d", alg, len(msg)), bv(8*size), kb, tt.BytesToBV(msg))
 	}
+	ex.hmacAxioms(alg, app, size)
 	return ex.splitBytes(app, size)
 }
 
@@ -567,6 +588,29 @@ func init() {
 			return ex.tt.FUn(OFAbs, args[0].(*Term), 0)
 		},
 	}
+	indexByte := func(ex *Exec, fr *frame, args []Value) Value {
+		var bs []*Term
+		switch v := args[0].(type) {
+		case Slice:
+			bs = ex.sliceTerms(v)
+		default:
+			bs = ex.strBytes(v)
+		}
+		c := args[1].(*Term)
+		tt := ex.tt
+		res := tt.BV(64, ^uint64(0)) // -1
+		for i := len(bs) - 1; i >= 0; i-- {
+			res = tt.Ite(tt.Eq(bs[i], c), tt.BV(64, uint64(i)), res)
+		}
+		return res
+	}
+	stubTable["bytes.IndexByte"] = indexByte
+	stubTable["strings.IndexByte"] = indexByte
+	stubTable["internal/bytealg.IndexByte"] = indexByte
+	stubTable["internal/bytealg.IndexByteString"] = indexByte
+	stubTable["bytes.Equal"] = func(ex *Exec, fr *frame, args []Value) Value {
+		return ex.bytesEqual(ex.sliceTerms(args[0]), ex.sliceTerms(args[1]))
+	}
 	for _, n := range []string{"Log", "Log2", "Log10", "Exp", "Exp2", "Pow", "Cbrt"} {
 		name := n
 		stubTable["math."+name] = func(ex *Exec, fr *frame, args []Value) Value {
@@ -718,4 +762,38 @@ func (ex *Exec) sameFields(a, b Value, t types.Type, skip string, depth int) *Te
 		return acc
 	}
 	return tt.Bool(true)
+}
+
+// hmacAxioms adds, for the new HMAC application and every earlier one of the same hash
+// on this path, the collision-freedom instance axiom on the 96-bit prefix (the shortest
+// truncation IPMI uses): equal prefixes imply equal key and message.
+func (ex *Exec) hmacAxioms(alg string, app *Term, size int) {
+	tt := ex.tt
+	for _, prev := range ex.hmacApps[alg] {
+		if prev == app {
+			return
+		}
+	}
+	pa := tt.Extract(app, 8*size-1, 8*size-96)
+	for _, prev := range ex.hmacApps[alg] {
+		pp := tt.Extract(prev, 8*size-1, 8*size-96)
+		same := tt.Eq(pa, pp)
+		var argsEq *Term
+		if prev.name != app.name || len(prev.args) != len(app.args) {
+			argsEq = tt.Bool(false) // different message lengths
+		} else {
+			argsEq = tt.Bool(true)
+			for i := range app.args {
+				argsEq = tt.BAnd(argsEq, tt.Eq(app.args[i], prev.args[i]))
+			}
+		}
+		ax := tt.BOr(tt.BNot(same), argsEq)
+		if !ax.IsConst() {
+			tt.axioms = append(tt.axioms, ax)
+		}
+	}
+	if ex.hmacApps == nil {
+		ex.hmacApps = map[string][]*Term{}
+	}
+	ex.hmacApps[alg] = append(ex.hmacApps[alg], app)
 }
